@@ -11,7 +11,7 @@ from hypothesis import strategies as st
 from vlib import gen, nx, solve
 from vlib.props.solverlevel import cfg_tag, problem_tags
 from vlib.ref import brute_force, shr_box_size, violated_constraints
-from vlib.run import EngineError, Verdict, engine
+from vlib.run import BudgetExceeded, EngineError, Verdict, engine
 
 
 # ----------------------------------------------------------------------------------------------
@@ -51,6 +51,8 @@ def check_c11(case):
                 else:
                     sols, value = [nx.vec(s) for s in engine(lambda: list(ms.solve()))], None
                 total = engine(ms.get_statistics)
+    except BudgetExceeded as e:
+        return Verdict(False, "the multiprocessing run does not terminate: %s" % e, True, tags)
     except EngineError as e:
         return Verdict(False, "the multiprocessing solver raised %s although no worker failed [k=%d split_var=%d schedule=%s]" % (e.bucket, mp["k"], mp["split_var"], mp.get("schedule")), True, tags)
     except BaseException as e:
